@@ -783,13 +783,33 @@ func NormalizeProjectName(s string) string {
 	return strings.TrimLeft(s, "_-")
 }
 
+// mappings whose keys are chosen by the user: a key starting with `x-` is a key like any other there, not an extension
 var userDefinedKeys = []tree.Path{
 	"services",
 	"services.*.depends_on",
+	"services.*.networks",
+	"services.*.environment",
+	"services.*.labels",
+	"services.*.annotations",
+	"services.*.sysctls",
+	"services.*.extra_hosts",
+	"services.*.storage_opt",
+	"services.*.logging.options",
+	"services.*.build.args",
+	"services.*.build.labels",
+	"services.*.build.extra_hosts",
+	"services.*.build.additional_contexts",
+	"services.*.deploy.labels",
 	"volumes",
+	"volumes.*.labels",
+	"volumes.*.driver_opts",
 	"networks",
+	"networks.*.labels",
+	"networks.*.driver_opts",
 	"secrets",
+	"secrets.*.labels",
 	"configs",
+	"configs.*.labels",
 }
 
 func processExtensions(dict map[string]any, p tree.Path, extensions map[string]any) (map[string]interface{}, error) {
